@@ -228,6 +228,14 @@ def run(prog, rep):
                 loops.append((l, own_interfaces(l.iter)))
         loops = [(l, w) for l, w in loops if w is not None and any(isinstance(c, ast.Call) and call_name(c) == 'disconnect_interface' for c in ast.walk(l))]
         rep.instance('R4', f'{fq}: disconnect loop over {norm(loops[0][0].iter) if loops else None} ({loops[0][1] if loops else None}); removal {remover}={len(rm)}')
+        # the loop visits every interface: it is never left by break / return (an unconnected interface is skipped, not the rest)
+        for l_, _w in loops:
+            for x_ in ast.walk(l_):
+                if isinstance(x_, (ast.Break, ast.Return)) and not any(isinstance(p_, (ast.For, ast.While)) and p_ is not l_ for p_ in _anc8(x_, l_)):
+                    rep.violation('R4', loc(cls.module, x_), fq, f'{type(x_).__name__.lower()} inside the disconnect loop',
+                                  f'the loop that disconnects the interfaces of the element from their services is left at the first interface '
+                                  f'that needs nothing done (e.g. an unconnected port): the interfaces after it are not disconnected, the element is '
+                                  f'removed, and the service ports that faced them stay in the model without a peer')
         ok = bool(rm) and bool(loops)
         why = 'peers not disconnected before the removal'
         if ok:
@@ -426,6 +434,15 @@ def check_unpeer_shape(prog, rep, rule):
                           'services that do not peer but are both connected to one node (or both peer with a third service) these are the '
                           'ports that connect them to that node / service: the ports are deleted with their links and the ports facing them '
                           'are left without a peer, instead of "do not peer" being raised')
+
+
+def _anc8(node, stop):
+    out = []
+    p = getattr(node, '_parent', None)
+    while p is not None and p is not stop:
+        out.append(p)
+        p = getattr(p, '_parent', None)
+    return out
 
 
 def check_disconnect_ownership(prog, rep, rule):
